@@ -458,6 +458,45 @@ type EncryptResponsePayload struct{ Data []byte }
 func (*EncryptRequestPayload) Operation() kmip.Operation  { return kmip.Operation(0x90000000) }
 func (*EncryptResponsePayload) Operation() kmip.Operation { return kmip.Operation(0x90000000) }
 
+var maskExtendOnce sync.Once
+var stdUsageNames []string
+
+// extendMaskAndCheck registers the usage mask again, with its 20 standard flags followed by two vendor flags (once per process), and
+// checks the bijection between bits 0..21 and their names through the lookups and the XML / JSON forms
+func extendMaskAndCheck(at string) (probs []string) {
+	maskExtendOnce.Do(func() {
+		for b := 0; b < 32; b++ {
+			n := string(ttlv.AppendBitmaskString(nil, kmip.TagCryptographicUsageMask, int32(1)<<b, "|"))
+			if strings.HasPrefix(n, "0x") {
+				break
+			}
+			stdUsageNames = append(stdUsageNames, n)
+		}
+		ttlv.RegisterBitmask[kmip.CryptographicUsageMask](kmip.TagCryptographicUsageMask, append(append([]string{}, stdUsageNames...), "VendorEscrow", "VendorAudit")...)
+	})
+	names := append(append([]string{}, stdUsageNames...), "VendorEscrow", "VendorAudit")
+	for b, n := range names {
+		if v, err := ttlv.BitmaskByStr(kmip.TagCryptographicUsageMask, n); err != nil || v != int32(1)<<b {
+			probs = append(probs, fmt.Sprintf("mask-name-denotes-another-bit:%s: %q is bit %d, BitmaskByStr gives %#x %v", at, n, b, v, err))
+			break
+		}
+		if s := string(ttlv.AppendBitmaskString(nil, kmip.TagCryptographicUsageMask, int32(1)<<b, "|")); s != n {
+			probs = append(probs, fmt.Sprintf("mask-bit-written-by-another-name:%s: bit %d is %q, written %q", at, b, n, s))
+			break
+		}
+	}
+	v := kmip.CryptographicUsageMask(1 | 1<<2 | 1<<len(stdUsageNames))
+	var bx, bj kmip.CryptographicUsageMask
+	x, j := ttlv.MarshalXML(v), ttlv.MarshalJSON(v)
+	if err := ttlv.UnmarshalXML(x, &bx); err != nil || bx != v {
+		probs = append(probs, fmt.Sprintf("mask-with-vendor-flag-read-back-differs:%s: xml %s -> %#x %v", at, x, int32(bx), err))
+	}
+	if err := ttlv.UnmarshalJSON(j, &bj); err != nil || bj != v {
+		probs = append(probs, fmt.Sprintf("mask-with-vendor-flag-read-back-differs:%s: json %s -> %#x %v", at, j, int32(bj), err))
+	}
+	return
+}
+
 // TestDynamic replays every history of RegistryDyn.tla against the real (process-global) registry; every history
 // gets fresh extension values and names, so histories do not disturb each other. Run after the static cases.
 func TestDynamic(t *testing.T) {
@@ -499,6 +538,8 @@ func TestDynamic(t *testing.T) {
 				switch s.Op {
 				case "register":
 					tg.register(val(s.Slot), name(nm[s.Slot]))
+				case "mask-extend":
+					probs = append(probs, extendMaskAndCheck(at)...)
 				case "payloads":
 					kmip.RegisterOperationPayload[EncryptRequestPayload, EncryptResponsePayload](kmip.Operation(0x90000000 + uint32(h)))
 				case "swap":
